@@ -142,7 +142,7 @@ prop("C03", "exploration",
      assumptions=["gap (stated in DESIGN): 1.x codec values no public call can construct (default != adjusted grid, is_adjusted "
                   "combinations) are not generated"])
 prop("C14", "fault_enumeration",
-     quick=[("atomic", "fast", 900)],
+     quick=[("atomic", "fast", 700)],
      thorough=[("atomic", "fast", 12000), ("atomic", "san", 400)],
      relevant=["atomic_pairs"],
      rule="each run = (pre-state S from a seeded fault-free history on an on-disk library, one public mutating call); the call is "
